@@ -175,6 +175,13 @@ def run(tier, seed):
             continue
         chk.violation(f"C03.B.raises_documented[{d['op']}]", f"einx.{d['op']}({d['description']!r}, shapes={d['shapes']}, {d['kwargs']}) [{d['edit']} of {d['seed_call']!r}] escapes with {r[1]} at {r[2]}: {r[3]}",
                       replay={"kind": "case", "case": d}, found_input=True)
+    import einx
+    xs = [np.full((2,), 1.0) for _ in range(400)]
+    r = classify(lambda: einx.add(", ".join(["a"] * 400) + " -> a", *xs), 60)
+    if r[0] == "internal" and "RecursionError" in r[1]:
+        chk.known_finding("F-deep-graph-recursion", "einx.add with 400 operands raises RecursionError (recursion depth grows with the length of the dependency chain)")
+    elif r[0] == "internal":
+        chk.violation("C03.B.raises_documented[add]", f"einx.add with 400 operands escapes with {r[1:]}", found_input=True)
     chk.add_bounded("single-edit corruptions (token delete/duplicate/replace/insert/swap; dimension/rank/tensor-count/keyword edits) of valid corpus calls on all public entry points incl. solve_axes/solve_shapes/matches",
                     f"{n} chunks x 10 seed calls x ~30 edits", len(res), len({(d['op'], d['description'], str(d['shapes'])) for _, d in res}), failures=fails, samples=[d for _, d in res[:3]], note=f"outcome classes: {cnt}")
     chk.assumptions += ["a ValueError/TypeError counts as documented only if it is raised by an explicit `raise` statement inside einx (an exception escaping from numpy/sympy internals or from an implicit operation counts as internal)",
